@@ -1,6 +1,6 @@
 (* C18 - bounded resources: no descriptor leaks, one open file, chunked I/O.  Statements only (partial: see MANIFEST). *)
 From Coq Require Import List ZArith NArith.
-From DOS Require Import Generated Base Store MonoStep Programs ProgramsProofs Resources.
+From DOS Require Import Generated Base Store MonoStep Programs ProgramsProofs Resources ResourcesProgs.
 Import ListNotations.
 
 (* the set of open write handles after ANY trace is determined by its opens and closes (model of the descriptor table) *)
@@ -19,6 +19,30 @@ Theorem C18_add_loose_bounded : forall w n chunks hs m,
 Proof. exact (add_loose_at_most_one_handle H). Qed.
 End C18.
 
+(* every other write program, for ALL inputs (any number of objects, batches, packs): with no pack handle open before the call, the call
+   closes what it opens and at EVERY point holds at most one handle more than before - descriptors do not accumulate with the number of
+   objects or packs written *)
+Theorem C18_pack_one_handle_at_a_time : forall w id objs fs clean hs, (forall i, ~ In (HPack i) hs) ->
+  track_all hs (p_pack_one w id objs fs clean) = hs /\ forall m, length (track_all hs (firstn m (p_pack_one w id objs fs clean))) <= S (length hs).
+Proof. intros w id objs fs clean. exact (one_handle_at_a_time _ (pack_one_blocks w id objs fs clean) (pack_one_opens w id objs fs clean)). Qed.
+
+Theorem C18_import_one_handle_at_a_time : forall w nh twice fs bs hs, (forall i, ~ In (HPack i) hs) ->
+  track_all hs (p_import w nh twice fs bs) = hs /\ forall m, length (track_all hs (firstn m (p_import w nh twice fs bs))) <= S (length hs).
+Proof. intros w nh twice fs bs. exact (one_handle_at_a_time _ (import_blocks w nh twice fs bs) (import_opens w nh twice fs bs)). Qed.
+
+Theorem C18_repack_one_handle_at_a_time : forall w id objs hs, (forall i, ~ In (HPack i) hs) ->
+  track_all hs (p_repack_one w id objs) = hs /\ forall m, length (track_all hs (firstn m (p_repack_one w id objs))) <= S (length hs).
+Proof. intros w id objs. exact (one_handle_at_a_time _ (repack_one_blocks w id objs) (repack_one_opens w id objs)). Qed.
+
+(* delete_objects and clean_storage open no write handle at all *)
+Theorem C18_delete_and_clean_open_nothing : forall w ks vacuum order hs,
+  track_all hs (p_delete w ks) = hs /\ track_all hs (p_clean w vacuum order) = hs.
+Proof.
+  intros w ks vacuum order hs. split; apply track_all_neutral.
+  - unfold p_delete. rewrite forallb_app, unlinks_neutral. reflexivity.
+  - unfold p_clean. rewrite forallb_app, unlinks_neutral. destruct vacuum; reflexivity.
+Qed.
+
 (* chunk constants of the current source bound every single read/write of the streaming paths *)
 Theorem C18_chunk_bounds : (CHUNKSIZE <= 16777216 /\ ADD_READ_CHUNK <= 16777216 /\ HASH_CHUNK <= 16777216 /\ ZLIB_CHUNKSIZE <= 16777216 /\ ZLIB_SEEK_READ_CHUNK <= 16777216)%Z.
 Proof. cbv. repeat split; congruence. Qed.
@@ -26,3 +50,7 @@ Print Assumptions C18_handles_tracked.
 Print Assumptions C18_add_loose_balanced.
 Print Assumptions C18_add_loose_bounded.
 Print Assumptions C18_chunk_bounds.
+Print Assumptions C18_pack_one_handle_at_a_time.
+Print Assumptions C18_import_one_handle_at_a_time.
+Print Assumptions C18_repack_one_handle_at_a_time.
+Print Assumptions C18_delete_and_clean_open_nothing.
